@@ -98,6 +98,7 @@ type UnitContract struct {
 	Opaque   []string   // callee names to treat as opaque (havoc) even if they have contracts
 	Fresh    []string   // local variable names havoced at region entry are implicit; listed for docs
 	FPChecks []*FPCheck // exhaustive concrete evaluation of rounding-critical statements (fpx.go)
+	As       map[string]string // "serves C09 as C08": for property C09 this unit is verified with the clause selection of C08
 }
 
 func (u *UnitContract) ID() string {
@@ -427,6 +428,16 @@ func (cs *ContractSet) parseFile(path, pkgdir string) error {
 				return fail(l, "%v", err)
 			}
 			cur.Cases = append(cur.Cases, &Clause{Kind: "cases", Name: fmt.Sprintf("c%d", len(cur.Cases)+1), Text: txt, Expr: e, Line: l.line, File: path})
+		case strings.HasPrefix(t, "serves ") && strings.Contains(t, " as "):
+			f := strings.Fields(t)
+			if len(f) != 4 {
+				return fail(l, "serves P as Q")
+			}
+			if cur.As == nil {
+				cur.As = map[string]string{}
+			}
+			cur.As[f[1]] = f[3]
+			cur.Tags[f[1]] = true
 		case strings.HasPrefix(t, "serves "):
 			for _, tg := range parseTags(strings.TrimPrefix(t, "serves ")) {
 				cur.Tags[tg] = true
